@@ -19,6 +19,10 @@ MOUNT = "/simfs/"
 _real_open = builtins.open
 _real_io_open = io.open
 _real_getsize = os.path.getsize
+_real_os_open = os.open
+_real_os_read = os.read
+_real_os_close = os.close
+FD_BASE = 1000000              # descriptors handed out by the simulated os.open (never a real descriptor)
 
 
 class Policy(object):
@@ -172,6 +176,8 @@ class SimFS(object):
 
     def __init__(self, policy=None, faults=None, log_ops=False):
         self.files = {}            # path -> bytearray
+        self.dirs = set()          # paths that name a directory
+        self.fds = {}              # simulated descriptor -> Handle (os.open / os.read / os.close)
         self.handles = []
         self.policy = policy or Policy()
         self.seq = 0               # the simulator's only clock
@@ -236,6 +242,8 @@ class SimFS(object):
     def getsize(self, path):
         self._event("getsize")
         p = os.fspath(path)
+        if p in self.dirs:
+            return 4096
         if p not in self.files:
             raise FileNotFoundError(_errno.ENOENT, "No such file (simfs)", p)
         return len(self.files[p])
@@ -244,6 +252,8 @@ class SimFS(object):
              closefd=True, opener=None):
         path = os.fspath(file)
         self._event("open")
+        if path in self.dirs:
+            raise IsADirectoryError(_errno.EISDIR, "Is a directory (simfs)", path)
         binary = "b" in mode
         m = mode.replace("b", "").replace("t", "")
         if m not in ("r", "w"):
@@ -276,6 +286,38 @@ class SimFS(object):
         self.handles.append(h)
         return top
 
+    # -- descriptor level (os.open / os.read / os.close on simulated paths) -----------------------------------
+    def fd_open(self, path, flags, mode=0o777):
+        path = os.fspath(path)
+        self._event("open")
+        writing = bool(flags & (os.O_WRONLY | os.O_RDWR))
+        if path not in self.files and path not in self.dirs:
+            if not (flags & os.O_CREAT):
+                raise FileNotFoundError(_errno.ENOENT, "No such file (simfs)", path)
+            self.files[path] = bytearray()
+        h = Handle(len(self.handles), path, "fd:w" if writing else "fd:r", self.owner, self.seq)
+        raw = SimRaw(self, h, self.files.get(path, bytearray()), "w" if writing else "r")
+        h.raw = raw
+        h.top = raw
+        self.handles.append(h)
+        fd = FD_BASE + h.hid
+        self.fds[fd] = h
+        self.count("os.open")
+        return fd
+
+    def fd_read(self, fd, n):
+        h = self.fds[fd]
+        if h.path in self.dirs:
+            self._event("read", h)
+            raise IsADirectoryError(_errno.EISDIR, "Is a directory (simfs)", h.path)
+        buf = bytearray(n)
+        k = h.raw.readinto(buf) or 0
+        return bytes(buf[:k])
+
+    def fd_close(self, fd):
+        h = self.fds.pop(fd)
+        h.raw.close()
+
     def open_as_caller(self, *a, **k):
         prev = self.owner
         self.owner = "caller"
@@ -298,9 +340,25 @@ class SimFS(object):
                 return fs.getsize(path)
             return _real_getsize(path)
 
+        def sim_os_open(path, flags, mode=0o777, **kw):
+            if SimFS.is_sim(path):
+                return fs.fd_open(path, flags, mode)
+            return _real_os_open(path, flags, mode, **kw)
+
+        def sim_os_read(fd, n):
+            if fd in fs.fds:
+                return fs.fd_read(fd, n)
+            return _real_os_read(fd, n)
+
+        def sim_os_close(fd):
+            if fd in fs.fds:
+                return fs.fd_close(fd)
+            return _real_os_close(fd)
+
         builtins.open = sim_open
         io.open = sim_open
         os.path.getsize = sim_getsize
+        os.open, os.read, os.close = sim_os_open, sim_os_read, sim_os_close
         self.installed = True
         return self
 
@@ -308,6 +366,7 @@ class SimFS(object):
         builtins.open = _real_open
         io.open = _real_io_open
         os.path.getsize = _real_getsize
+        os.open, os.read, os.close = _real_os_open, _real_os_read, _real_os_close
         self.installed = False
 
     def __enter__(self):
